@@ -16,7 +16,10 @@
 #include <fcppt/options/make_active_value.hpp>
 #include <fcppt/options/make_default_value.hpp>
 #include <fcppt/options/make_inactive_value.hpp>
+#include <fcppt/options/make_commands.hpp>
 #include <fcppt/options/make_many.hpp>
+#include <fcppt/options/make_sub_command.hpp>
+#include <fcppt/options/make_optional.hpp>
 #include <fcppt/options/make_sum.hpp>
 #include <fcppt/options/option.hpp>
 #include <fcppt/options/optional_help_text.hpp>
@@ -24,11 +27,18 @@
 #include <fcppt/options/parse.hpp>
 #include <fcppt/options/short_name.hpp>
 #include <fcppt/parse/char.hpp>
+#include <fcppt/parse/convert_const.hpp>
+#include <fcppt/parse/make_fatal.hpp>
+#include <fcppt/parse/make_ignore.hpp>
+#include <fcppt/parse/make_lexeme.hpp>
+#include <fcppt/parse/separator.hpp>
 #include <fcppt/parse/make_convert.hpp>
 #include <fcppt/parse/parse_string.hpp>
 #include <fcppt/parse/operators/alternative.hpp>
 #include <fcppt/parse/operators/optional.hpp>
+#include <fcppt/parse/list.hpp>
 #include <fcppt/parse/literal.hpp>
+#include <fcppt/parse/named.hpp>
 #include <fcppt/parse/operators/repetition.hpp>
 #include <fcppt/parse/operators/repetition_plus.hpp>
 #include <fcppt/parse/operators/sequence.hpp>
@@ -38,6 +48,7 @@
 #include <ostream>
 #include <string>
 #include <utility>
+#include <vector>
 
 namespace c05v
 {
@@ -76,6 +87,8 @@ FCPPT_RECORD_MAKE_LABEL(flag_label);
 FCPPT_RECORD_MAKE_LABEL(opt_label);
 FCPPT_RECORD_MAKE_LABEL(opt2_label);
 FCPPT_RECORD_MAKE_LABEL(sum_label);
+FCPPT_RECORD_MAKE_LABEL(cmd1_label);
+FCPPT_RECORD_MAKE_LABEL(cmd2_label);
 using option2_type = fcppt::options::option<opt2_label, val>;
 using flag_type = fcppt::options::flag<flag_label, val>;
 using option_type = fcppt::options::option<opt_label, val>;
@@ -83,7 +96,45 @@ using option_type = fcppt::options::option<opt_label, val>;
 fcppt::options::optional_short_name short_f() { return fcppt::options::optional_short_name{fcppt::options::short_name{FCPPT_TEXT("f")}}; }
 fcppt::options::long_name long_f() { return fcppt::options::long_name{FCPPT_TEXT("flag")}; }
 
-void options()
+// one traced call whose argument(s) are OPAQUE rvalue parser objects: mk(toks) builds the parser and reports the
+// tokens of the tracked values it holds; the result (another parser) cannot be walked either
+template <typename Make, typename Call>
+[[maybe_unused]] void run_opaque1(char const *op, std::string const &shape, Make const &mk, Call const &call)
+{
+  if (!wanted(op) || !reset(op, shape, "r")) return;
+  guarded([&]
+  {
+    std::vector<long> toks;
+    auto p = mk(toks);
+    begin(op, false, {opaque('r', toks)});
+    {
+      auto const r = call(std::move(p));
+      (void)r;
+      end(nothing{}, {{}});
+    }
+  });
+}
+template <typename Make1, typename Make2, typename Call>
+[[maybe_unused]] void run_opaque2(char const *op, std::string const &shape, Make1 const &mk1, Make2 const &mk2, Call const &call)
+{
+  if (!wanted(op) || !reset(op, shape, "rr")) return;
+  guarded([&]
+  {
+    std::vector<long> toks1;
+    std::vector<long> toks2;
+    auto p = mk1(toks1);
+    auto q = mk2(toks2);
+    begin(op, false, {opaque('r', toks1), opaque('r', toks2)});
+    {
+      auto const r = call(std::move(p), std::move(q));
+      (void)r;
+      end(nothing{}, {{}, {}});
+    }
+  });
+}
+
+#ifdef C05_UNIT_OPTIONS_CTOR
+void options_ctor()
 {
   // flag constructor: both values are passed as rvalues (the signature takes rvalue references)
   for (bool equal : {false, true})
@@ -101,20 +152,6 @@ void options()
       }
       return nothing{};
     });
-  // flag parse: the result is a copy of the active / inactive member
-  for (int variant = 0; variant < 3; ++variant)
-  {
-    if (!wanted("options::flag::parse")) break;
-    reset("options::flag::parse", variant == 0 ? "absent" : variant == 1 ? "--flag" : "-f", "");
-    {
-      flag_type const f{short_f(), long_f(), fcppt::options::make_active_value(val(next_tok())),
-                        fcppt::options::make_inactive_value(val(next_tok())), fcppt::options::optional_help_text{}};
-      fcppt::args_vector const args{variant == 0 ? fcppt::args_vector{} : fcppt::args_vector{variant == 1 ? FCPPT_TEXT("--flag") : FCPPT_TEXT("-f")}};
-      begin("options::flag::parse", false, {});
-      auto const r = fcppt::options::parse(f, args);
-      end(r, {});
-    }
-  }
   // option constructor with a default value (rvalue) and parse
   for_cats<'r'>([&](auto)
   {
@@ -126,10 +163,101 @@ void options()
       return nothing{};
     });
   });
+  // Constructors of the combining parsers take their sub-parsers as rvalues ("many(Parser &&)", "sum(Left &&, Right &&)",
+  // ...).  The sub-parsers hold tracked values (the default value of an option, the two values of a flag) that cannot
+  // be walked from outside: the arguments are OPAQUE, only the tokens they hold are known (xtoks).  A copy of a
+  // sub-parser where a move is due copies those values: copy-of-rvalue-element.
+  auto const mk_opt_parser = [](std::vector<long> &toks)
+  {
+    int const tok = next_tok();
+    toks.push_back(tok);
+    return option_type{fcppt::options::optional_short_name{}, fcppt::options::long_name{FCPPT_TEXT("opt")},
+                       fcppt::options::make_default_value(fcppt::optional::object<val>{val(tok)}), fcppt::options::optional_help_text{}};
+  };
+  auto const mk_opt2_parser = [](std::vector<long> &toks)
+  {
+    int const tok = next_tok();
+    toks.push_back(tok);
+    return option2_type{fcppt::options::optional_short_name{}, fcppt::options::long_name{FCPPT_TEXT("opt2")},
+                        fcppt::options::make_default_value(fcppt::optional::object<val>{val(tok)}), fcppt::options::optional_help_text{}};
+  };
+  auto const mk_flag_parser = [](std::vector<long> &toks)
+  {
+    int const t1 = next_tok();
+    int const t2 = next_tok();
+    toks.push_back(t1);
+    toks.push_back(t2);
+    return flag_type{short_f(), long_f(), fcppt::options::make_active_value(val(t1)), fcppt::options::make_inactive_value(val(t2)),
+                     fcppt::options::optional_help_text{}};
+  };
+  run_opaque1("options::many::many", "many(option)", mk_opt_parser, [](auto &&p) { return fcppt::options::make_many(C05_FWD(p)); });
+  run_opaque1("options::many::many", "many(flag)", mk_flag_parser, [](auto &&p) { return fcppt::options::make_many(C05_FWD(p)); });
+  run_opaque1("options::optional::optional", "optional(option)", mk_opt_parser, [](auto &&p) { return fcppt::options::make_optional(C05_FWD(p)); });
+  run_opaque2("options::sum::sum", "sum(option,option2)", mk_opt_parser, mk_opt2_parser,
+              [](auto &&p, auto &&q) { return fcppt::options::make_sum<sum_label>(C05_FWD(p), C05_FWD(q)); });
+  run_opaque2("options::product::product", "apply(flag,option)", mk_flag_parser, mk_opt_parser,
+              [](auto &&p, auto &&q) { return fcppt::options::apply(C05_FWD(p), C05_FWD(q)); });
+  run_opaque2("options::product::product", "apply(option,flag)", mk_opt_parser, mk_flag_parser,
+              [](auto &&p, auto &&q) { return fcppt::options::apply(C05_FWD(p), C05_FWD(q)); });
+  // nested: a product inside many, a sum of a product and an option
+  run_opaque2("options::many::many", "many(apply(flag,option))", mk_flag_parser, mk_opt_parser,
+              [](auto &&p, auto &&q) { return fcppt::options::make_many(fcppt::options::apply(C05_FWD(p), C05_FWD(q))); });
+  // sub_command(name, parser, help) and commands(options parser, sub commands...): the variadic positions as well
+  run_opaque1("options::sub_command::sub_command", "sub_command(option)", mk_opt_parser, [](auto &&p)
+  { return fcppt::options::make_sub_command<cmd1_label>(fcppt::string{FCPPT_TEXT("one")}, C05_FWD(p), fcppt::options::optional_help_text{}); });
+  if (wanted("options::commands::commands") && reset("options::commands::commands", "commands(flag, sub(option), sub(option2))", "rrr"))
+    guarded([&]
+    {
+      std::vector<long> t0;
+      std::vector<long> t1;
+      std::vector<long> t2;
+      auto p0 = mk_flag_parser(t0);
+      auto s1 = fcppt::options::make_sub_command<cmd1_label>(fcppt::string{FCPPT_TEXT("one")}, mk_opt_parser(t1), fcppt::options::optional_help_text{});
+      auto s2 = fcppt::options::make_sub_command<cmd2_label>(fcppt::string{FCPPT_TEXT("two")}, mk_opt2_parser(t2), fcppt::options::optional_help_text{});
+      begin("options::commands::commands", false, {opaque('r', t0), opaque('r', t1), opaque('r', t2)});
+      {
+        auto const r = fcppt::options::make_commands(std::move(p0), std::move(s1), std::move(s2));
+        (void)r;
+        end(nothing{}, {{}, {}, {}});
+      }
+    });
+  // values handed to the helper constructors of the flag / option arguments
+  for_cats<'r', 'c'>([&](auto c)
+  {
+    constexpr char C = decltype(c)::value;
+    run1<C>("options::make_active_value", false, "value", [] { return val(next_tok()); },
+            [](auto &&a) { (void)fcppt::options::make_active_value(C05_FWD(a)); return nothing{}; });
+    run1<C>("options::make_inactive_value", false, "value", [] { return val(next_tok()); },
+            [](auto &&a) { (void)fcppt::options::make_inactive_value(C05_FWD(a)); return nothing{}; });
+    run1<C>("options::make_default_value", false, "optional value", [] { return fcppt::optional::object<val>{val(next_tok())}; },
+            [](auto &&a) { (void)fcppt::options::make_default_value(C05_FWD(a)); return nothing{}; });
+  });
+}
+#endif
+
+#ifdef C05_UNIT_OPTIONS_PARSE
+void options_parse()
+{
+  // flag parse: the result is a copy of the active / inactive member
+  for (int variant = 0; variant < 3; ++variant)
+  {
+    if (!wanted("options::flag::parse")) break;
+    if (!reset("options::flag::parse", variant == 0 ? "absent" : variant == 1 ? "--flag" : "-f", "")) continue;
+    guarded([&]
+    {
+      flag_type const f{short_f(), long_f(), fcppt::options::make_active_value(val(next_tok())),
+                        fcppt::options::make_inactive_value(val(next_tok())), fcppt::options::optional_help_text{}};
+      fcppt::args_vector const args{variant == 0 ? fcppt::args_vector{} : fcppt::args_vector{variant == 1 ? FCPPT_TEXT("--flag") : FCPPT_TEXT("-f")}};
+      begin("options::flag::parse", false, {});
+      auto const r = fcppt::options::parse(f, args);
+      end(r, {});
+    });
+  }
   for (int variant = 0; variant < 2; ++variant)
   {
     if (!wanted("options::option::parse")) break;
-    reset("options::option::parse", variant == 0 ? "default" : "--opt 5", "");
+    if (!reset("options::option::parse", variant == 0 ? "default" : "--opt 5", "")) continue;
+    guarded([&]
     {
       option_type const o{fcppt::options::optional_short_name{}, fcppt::options::long_name{FCPPT_TEXT("opt")},
                           fcppt::options::make_default_value(fcppt::optional::object<val>{val(next_tok())}),
@@ -138,13 +266,14 @@ void options()
       begin("options::option::parse", false, {});
       auto const r = fcppt::options::parse(o, args);
       end(r, {});
-    }
+    });
   }
   // many(option): every parsed value ends up in the result vector
   for (int n = 0; n <= 3; ++n)
   {
     if (!wanted("options::many::parse")) break;
-    reset("options::many::parse", "occurrences:" + std::to_string(n), "");
+    if (!reset("options::many::parse", "occurrences:" + std::to_string(n), "")) continue;
+    guarded([&]
     {
       auto const m{fcppt::options::make_many(option_type{fcppt::options::optional_short_name{},
           fcppt::options::long_name{FCPPT_TEXT("opt")}, option_type::optional_default_value{fcppt::optional::object<val>{}},
@@ -158,13 +287,14 @@ void options()
       begin("options::many::parse", false, {});
       auto const r = fcppt::options::parse(m, args);
       end(r, {});
-    }
+    });
   }
   // product of a flag and an option
   for (int variant = 0; variant < 2; ++variant)
   {
     if (!wanted("options::apply::parse")) break;
-    reset("options::apply::parse", variant == 0 ? "defaults" : "--flag --opt 5", "");
+    if (!reset("options::apply::parse", variant == 0 ? "defaults" : "--flag --opt 5", "")) continue;
+    guarded([&]
     {
       auto const p{fcppt::options::apply(
           flag_type{short_f(), long_f(), fcppt::options::make_active_value(val(next_tok())),
@@ -177,7 +307,7 @@ void options()
       begin("options::apply::parse", false, {});
       auto const r = fcppt::options::parse(p, args);
       end(r, {});
-    }
+    });
   }
 }
 
@@ -187,7 +317,8 @@ void sums()
   for (int variant = 0; variant < 3; ++variant)
   {
     if (!wanted("options::sum::parse")) break;
-    reset("options::sum::parse", variant == 0 ? "--a 5" : variant == 1 ? "--b 6" : "neither", "");
+    if (!reset("options::sum::parse", variant == 0 ? "--a 5" : variant == 1 ? "--b 6" : "neither", "")) continue;
+    guarded([&]
     {
       auto const no_default = [] { return fcppt::optional::object<val>{}; };
       auto const p{fcppt::options::make_sum<sum_label>(
@@ -201,10 +332,51 @@ void sums()
       begin("options::sum::parse", false, {});
       auto const r = fcppt::options::parse(p, args);
       end(r, {});
-    }
+    });
   }
 }
+#endif
 
+#ifdef C05_UNIT_PARSE_CTOR
+void parse_ctor()
+{
+  // convert_const(parser, value): the constant is moved into the parser
+  for_cats<'r'>([&](auto)
+  {
+    run1<'r'>("parse::convert_const::convert_const", false, "value", [] { return T(next_tok()); },
+              [](auto &&a) { (void)fcppt::parse::convert_const(fcppt::parse::literal{'a'}, C05_FWD(a)); return nothing{}; });
+  });
+  // The combining parsers take their sub-parsers as rvalues ("sequence(Left &&, Right &&)", "repetition(Parser &&)", ...);
+  // a convert_const sub-parser holds a tracked value that cannot be walked from outside: opaque arguments (xtoks)
+  auto const mk_p = [](std::vector<long> &toks)
+  {
+    int const tok = next_tok();
+    toks.push_back(tok);
+    return fcppt::parse::convert_const(fcppt::parse::literal{'a'}, T(tok));
+  };
+  run_opaque1("parse::repetition::repetition", "*p", mk_p, [](auto &&p) { return *C05_FWD(p); });
+  run_opaque1("parse::repetition_plus::repetition_plus", "+p", mk_p, [](auto &&p) { return +C05_FWD(p); });
+  run_opaque1("parse::optional::optional", "-p", mk_p, [](auto &&p) { return -C05_FWD(p); });
+  run_opaque1("parse::fatal::fatal", "fatal(p)", mk_p, [](auto &&p) { return fcppt::parse::make_fatal(C05_FWD(p)); });
+  run_opaque1("parse::lexeme::lexeme", "lexeme(p)", mk_p, [](auto &&p) { return fcppt::parse::make_lexeme(C05_FWD(p)); });
+  run_opaque1("parse::ignore::ignore", "ignore(p)", mk_p, [](auto &&p) { return fcppt::parse::make_ignore(C05_FWD(p)); });
+  run_opaque2("parse::sequence::sequence", "p >> q", mk_p, mk_p, [](auto &&p, auto &&q) { return C05_FWD(p) >> C05_FWD(q); });
+  run_opaque2("parse::alternative::alternative", "p | q", mk_p, mk_p, [](auto &&p, auto &&q) { return C05_FWD(p) | C05_FWD(q); });
+  run_opaque1("parse::separator::separator", "separator(p, ',')", mk_p,
+              [](auto &&p) { return fcppt::parse::separator{C05_FWD(p), fcppt::parse::literal{','}}; });
+  run_opaque1("parse::convert::convert", "make_convert(p, f)", mk_p,
+              [](auto &&p) { return fcppt::parse::make_convert(C05_FWD(p), [](T &&x) { return T(std::move(x)); }); });
+  run_opaque1("parse::named::named", "named(p, name)", mk_p, [](auto &&p) { return fcppt::parse::named{C05_FWD(p), std::string{"p"}}; });
+  run_opaque1("parse::list::list", "list('[', p, ',', ']')", mk_p, [](auto &&p)
+  { return fcppt::parse::list{fcppt::parse::literal{'['}, C05_FWD(p), fcppt::parse::literal{','}, fcppt::parse::literal{']'}}; });
+  // nested combinations: the sub-parser sits one level further inside
+  run_opaque2("parse::repetition::repetition", "*(p >> q)", mk_p, mk_p, [](auto &&p, auto &&q) { return *(C05_FWD(p) >> C05_FWD(q)); });
+  run_opaque2("parse::sequence::sequence", "p >> *q", mk_p, mk_p, [](auto &&p, auto &&q) { return C05_FWD(p) >> *C05_FWD(q); });
+  run_opaque2("parse::alternative::alternative", "-p | +q", mk_p, mk_p, [](auto &&p, auto &&q) { return -C05_FWD(p) | -(+C05_FWD(q)); });
+}
+#endif
+
+#ifdef C05_UNIT_PARSE_RESULTS
 void parsers()
 {
   // an element parser whose value is a tracked object made by the convert continuation
@@ -218,13 +390,13 @@ void parsers()
   };
   auto const run = [](char const *op, auto const &parser, std::string const &input)
   {
-    if (!wanted(op)) return;
-    reset(op, "input:" + std::to_string(input.size()), "");
+    if (!wanted(op) || !reset(op, "input:" + std::to_string(input.size()), "")) return;
+    guarded([&]
     {
       begin(op, false, {});
       auto const r = fcppt::parse::parse_string(parser, std::string{input});
       end(r, {});
-    }
+    });
   };
   for (std::string const &in : {std::string{}, std::string{"a"}, std::string{"ab"}, std::string{"abc"}, std::string{"abcdefgh"}})
   {
@@ -238,14 +410,26 @@ void parsers()
     run("parse::alternative", (fcppt::parse::literal{'a'} >> elem()) | elem(), in);
   }
 }
+#endif
+
 }
 
 namespace c05
 {
-void drive_parsers()
+#ifdef C05_UNIT_OPTIONS_CTOR
+void drive_options_ctor() { options_ctor(); }
+#endif
+#ifdef C05_UNIT_PARSE_CTOR
+void drive_parse_ctor() { parse_ctor(); }
+#endif
+#ifdef C05_UNIT_OPTIONS_PARSE
+void drive_options_parse()
 {
-  options();
+  options_parse();
   sums();
-  parsers();
 }
+#endif
+#ifdef C05_UNIT_PARSE_RESULTS
+void drive_parse_results() { parsers(); }
+#endif
 }
